@@ -446,22 +446,24 @@ def c10_units(tier, seed):
     late.sort()
     for (_, y, mth) in late[:1 if q else 3]:
         for sect in (1, 2):
-            us.append(dict(id=f"C10a[Y={y},m={mth},sect={sect},base={y-3},win=1,jie-at-23h]", harness="calendar.VH_C10_Reverse",
-                           params={"Y": y, "SECT": sect, "BASE": y - 3, "WIN": 1}, concrete={"v_m": mth}))
+            w = 2 if (q and sect == 2) else 1
+            us.append(dict(id=f"C10a[Y={y},m={mth},sect={sect},base={y-3},win={w},jie-at-23h]", harness="calendar.VH_C10_Reverse",
+                           params={"Y": y, "SECT": sect, "BASE": y - 3, "WIN": w}, concrete={"v_m": mth}))
     for Y in years:
         for m in range(1, 13):
             for sect in (1, 2):
                 if q and sect == 2 and m != 2:
                     continue  # a sect-2 unit costs minutes: quick keeps the Lichun month only
                 for base in ((Y - 3,) if q else (Y - 3, 1900)):
-                    us.append(dict(id=f"C10a[Y={Y},m={m},sect={sect},base={base},win=1]", harness="calendar.VH_C10_Reverse",
-                                   params={"Y": Y, "SECT": sect, "BASE": base, "WIN": 1}, concrete={"v_m": m}))
+                    w = 2 if (q and sect == 2) else 1
+                    us.append(dict(id=f"C10a[Y={Y},m={m},sect={sect},base={base},win={w}]", harness="calendar.VH_C10_Reverse",
+                                   params={"Y": Y, "SECT": sect, "BASE": base, "WIN": w}, concrete={"v_m": m}))
             if not q and Y == 2024 and m in (2, 6, 12):
                 us.append(dict(id=f"C10a[Y={Y},m={m},sect=1,base={Y-3},win=0]", harness="calendar.VH_C10_Reverse",
                                params={"Y": Y, "SECT": 1, "BASE": Y - 3, "WIN": 0}, concrete={"v_m": m}))
     return us
 
 
-PROPS["C10"] = dict(units=c10_units, bounds_text="every second of the three days around the Jie of each month of the listed years (quick: 2024; thorough: 2020, 2024), base year = year-3 (thorough also the default 1900); quick: early-rat convention for all 12 months, the late-rat convention for February, and both conventions for the (year, month) nearest 2024 whose Jie instant falls at 23h (from the feature scan); thorough: both conventions for every month; thorough adds the remaining days of February, June and December 2024 under sect 1; candidate-year loop unwound concretely (the clock's current year is read from the host)",
+PROPS["C10"] = dict(units=c10_units, bounds_text="every second of the three days around the Jie (in quick, under the late-rat convention: of the Jie day itself) of each month of the listed years (quick: 2024; thorough: 2020, 2024), base year = year-3 (thorough also the default 1900); quick: early-rat convention for all 12 months, the late-rat convention for February, and both conventions for the (year, month) nearest 2024 whose Jie instant falls at 23h (from the feature scan); thorough: both conventions for every month; thorough adds the remaining days of February, June and December 2024 under sect 1; candidate-year loop unwound concretely (the clock's current year is read from the host)",
                     outside="years not listed; the days away from the Jie in quick; time.Now() beyond the host clock's year",
                     unit_timeout_ms={"quick": 1500000, "thorough": 3600000})
